@@ -905,7 +905,11 @@ util::Result<CTxDestination> DescriptorScriptPubKeyMan::GetNewDestination(const 
             return util::Error{_("Error: Cannot extract destination from the generated scriptpubkey")}; // shouldn't happen
         }
         m_wallet_descriptor.next_index++;
-        WalletBatch(m_storage.GetDatabase()).WriteDescriptor(GetID(), m_wallet_descriptor);
+        if (!WalletBatch(m_storage.GetDatabase()).WriteDescriptor(GetID(), m_wallet_descriptor)) {
+            // Do not hand out an address whose index was not persisted: after a restart it would be handed out again
+            m_wallet_descriptor.next_index--;
+            return util::Error{Untranslated("Error: Failed to write the descriptor's next index to the wallet database")};
+        }
         return dest;
     }
 }
